@@ -466,9 +466,23 @@ def rule_chromatwin(ctx):
         return
     under_chroma = [c for c in me if any(cc.op == "param" and cc.a[0] == "chroma" and p for cc, p in symeval.pc_conds(c.pc))]
     other = [c for c in me if c not in under_chroma]
-    good = len(under_chroma) == 1 and len(other) == 1 and list(under_chroma[0].args) == list(other[0].args)
-    dist = dict(under_chroma[0].kw).get("distance") if under_chroma else None
-    good = good and dist is not None and dist.op == "func" and dist.a[0] == "util._outer_distance_mod_n" and not other[0].kw
+    def bound(c):
+        names = ["ref", "est", "window", "distance"]
+        b = {}
+        for i, a in enumerate(c.args):
+            if i < len(names):
+                b[names[i]] = a
+        for n, v in c.kw:
+            b[n] = v
+        return b
+
+    good = len(under_chroma) == 1 and len(other) == 1
+    dist = None
+    if good:
+        bc, bo = bound(under_chroma[0]), bound(other[0])
+        dist = bc.get("distance")
+        good = all(bc.get(k) is bo.get(k) for k in ("ref", "est", "window")) and set(bo) <= {"ref", "est", "window"}
+    good = good and dist is not None and dist.op == "func" and dist.a[0] == "util._outer_distance_mod_n"
     yield ob(R, h, "multipitch.compute_num_true_positives:twin", good, "chroma=True differs from chroma=False only by distance=_outer_distance_mod_n (same frames, same window)")
     yield from _melody_twin(ctx, R)
 
